@@ -36,7 +36,7 @@ TEXTS = {
                            "each command must arrive in the replica set owning the reference slot (writes, scans, scripts at the master), and every backend connection must start with AUTH/READONLY as required",
                 level_note=_sim_note + " Read/write classification is Redis' command table held in the harness, not rcproxy's constant order."),
     "C06": dict(design_ref="6/C06", technique=_T + "wire-level fragment oracle at the backends (per-slot subsequence equality)",
-                level_text="MGET/DEL/MSET with up to 300 (thorough 5000) keys, duplicates, hash tags, empty/binary keys, observed on the wire at the backends under partial writes and map-order variation: "
+                level_text="MGET/DEL/MSET with up to 300 (thorough 5000) keys, duplicates, hash tags, empty/binary keys, per-slot key counts / key and value lengths on the decimal-digit boundaries of the encoding (9/10, 99/100, 999/1000), observed on the wire at the backends under partial writes and map-order variation: "
                            "exactly one well-formed same-kind fragment per distinct slot carrying that slot's keys (with values) in request order; the input dimension is sampled, so the level is modest",
                 level_note=_sim_note),
     "C07": dict(design_ref="6/C07", technique=_T + "reference merge of the fragment replies actually returned in the run, under seeded arrival orders",
@@ -65,11 +65,11 @@ TEXTS = {
                            "served correctly, no backend may receive what redis-server's parser rejects, and a definite protocol error must end in an error reply or a close",
                 level_note=_sim_note + " 'Definite protocol error' is decided by a re-implementation of redis-server's processMultibulkBuffer/processInlineBuffer."),
     "C13": dict(design_ref="6/C13", technique=_T + "stale-view topology with MOVED/ASK answered by the model; redirect-count and final-owner oracle",
-                level_text="slots handed to another known master (MOVED) and slots in migration with some keys moved (ASK; the importing node insists on ASKING) hit by single and split requests at seeded "
+                level_text="slots handed to another known master (MOVED) and slots in migration with some keys moved (ASK; the importing node insists on ASKING) hit by single and split requests (incl. wide ones: 17-40 fragments each redirected once) at seeded "
                            "pipeline positions while nodes keep reporting the old view; the client must get exactly the final owner's reply in position and no fragment may be redirected more than 16 times",
                 level_note=_sim_note),
     "C14": dict(design_ref="6/C14", technique=_T + "topology-history simulation with unusable probe answers; black-box routing oracle anchored on consumed probe replies",
-                level_text="histories of cluster descriptions from seeded mutations with per-node lag and interleaved unusable probe answers; 3 fake seconds after the proxy consumed the first probe reply "
+                level_text="histories of cluster descriptions from seeded mutations with per-node lag and interleaved unusable probe answers (plus: a known replica dropping out for 6 s and returning while loading / link down, refresh goroutine parked at yield points, descriptions flapping back); 3 fake seconds after the proxy consumed the first probe reply "
                            "carrying the final description, writes must reach the claiming master, reads only it or its usable replicas, and unclaimed slots must be refused",
                 level_note=_sim_note + " Yield-point interleavings of the refresh goroutine (hook points exist in /repo) are not driven yet; helper goroutines run to quiescence between driver actions."),
     "C15": dict(design_ref="6/C15", technique=_T + "fault enumeration over connection-loss phase x pipeline position x request kind; bounded liveness in a fair settle phase",
@@ -77,7 +77,7 @@ TEXTS = {
                            "phase, timeout+10 fake seconds) every request has a reply or its connection was closed by the proxy, data replies are still right, and a later client is served over a new connection",
                 level_note=_sim_note),
     "C16": dict(design_ref="6/C16", technique=_T + "stalled/late backends on the fake clock; position-exact reply oracle with deadline-relative lateness rule",
-                level_text="fault enumeration over which fragments stall (forever / beyond the timeout) x pipeline position x request kind plus seeded random cases; each request must get exactly its "
+                level_text="fault enumeration over which fragments stall (forever / beyond the timeout) x pipeline position x request kind plus seeded random cases, and a whole node that stops reading and answering behind small send buffers (blocked backend writes); each request must get exactly its "
                            "backend reply or, when the reply was not handed to the proxy before client-send-time+T, the timeout error, in its pipeline position; later requests must still be served",
                 level_note=_sim_note + " A reply released before (client send time + T) is in time for sure because the proxy's deadline starts at its later write."),
     "C17": dict(design_ref="6/C17", technique=_T + "served-iff oracle from docs/command.md, Redis' arity table and own-size limit",
@@ -85,7 +85,7 @@ TEXTS = {
                            "in one or many segments; a request is served iff supported, arity ok and own size <= L, otherwise the corresponding error and nothing reaches a backend",
                 level_note=_sim_note + " Argument counts between 'has a key' and Redis' minimum for variadic commands are unspecified by the statement and accepted either way."),
     "C18": dict(design_ref="6/C18", technique=_T + "whitelist edit histories on real files with real inotify and a sentinel barrier; arbitrary source addresses from the simulated kernel",
-                level_text="edit histories (add, remove, replace, enable, disable) applied in place, torn in two writes, via invalid YAML, delete+recreate or rename-over; after every edit probes from listed, "
+                level_text="edit histories (add, remove, replace, enable, disable, duplicate entries, list block or enable line left out) applied in place, torn in two writes, via invalid YAML, delete+recreate or rename-over; after every edit probes from listed, "
                            "unlisted, formerly listed and IPv6 addresses must be admitted iff the whitelist is disabled or the address is in the current file; rejected = closed with zero bytes, nothing forwarded",
                 level_note=_sim_note + " File system and inotify are real; determinism comes from the barrier (hook verifhook.Event), not from timing."),
     "C19": dict(design_ref="6/C19", technique="seeded state-machine simulation of the buffers against a byte-queue model (pgregory.net/rapid) + whole-proxy simulation with tiny socket buffers",
